@@ -45,6 +45,16 @@ func (e *Env) monitorReimport(st *Step) {
 	for _, n := range []string{"time", "params", "assets", "vals", "dels", "redels", "uq", "ui", "snaps", "bank", "supply", "staking"} {
 		if a[n] != b[n] {
 			st.fail("C18", "reimport_differs", "component %s differs after export/import: [%.200s] vs [%.200s]", n, a[n], b[n])
+			// the records the other properties speak about must survive a chain restart too
+			switch n {
+			case "redels":
+				st.fail("C15", "reimport_changes_redelegations", "pending redelegations differ after export/import: [%.200s] vs [%.200s]", a[n], b[n])
+			case "uq", "ui":
+				st.fail("C02", "reimport_changes_unbondings", "unbonding %s differs after export/import: [%.200s] vs [%.200s]", n, a[n], b[n])
+				st.fail("C07", "reimport_changes_unbondings", "unbonding %s differs after export/import: [%.200s] vs [%.200s]", n, a[n], b[n])
+			case "dels", "vals":
+				st.fail("C03", "reimport_changes_shares", "%s differ after export/import: [%.200s] vs [%.200s]", n, a[n], b[n])
+			}
 		}
 	}
 	// time queue as a set per completion time
